@@ -9,6 +9,7 @@ import impl
 
 PID = "C12"
 LEAN_MODULES = ["BtcHd.Props.C12"]
+LEAN_MODULES_THOROUGH = ['BtcHd.Props.TrBip39', 'BtcHd.Props.TrPath']
 TRUSTED_BASE = common.CORE_TRUSTED + ["HMAC-SHA512 / SHA-256 / curve are parameters of the theorems"]
 ASSUMPTIONS = ["hmac/hashlib/base64 of CPython are correct (used by the independent BIP85 oracle)"]
 RULE = ("master keys random and boundary; indexes {0,1,2^31-1,random} and {-1,-2^31,2^31,2^32}; all five word counts and "
@@ -97,6 +98,15 @@ def cases(rng, tier):
                 yield "bip85 %s %s %d %d -" % (m, app, param, i), "bad-index"
         for app, param in (("hex", -16), ("hex", 2 ** 31), ("pwd", -21), ("pwd", 2 ** 31 + 20), ("mnemonic", 2 ** 31 + 12)):
             yield "bip85 %s %s %d 0 -" % (m, app, param), "bad-param"
+    for _ in range(2 if tier == "quick" else 30):
+        k1, k2 = rng.randrange(1, N), rng.randrange(1, N)
+        c1, c2 = (bytes(rng.getrandbits(8) for _ in range(32)) for _ in range(2))
+        sib = ["P:%s:%s:0:0:0:none" % (hx(k.to_bytes(32, "big")), hx(c)) for k, c in
+               [(k1, c1), (k1, c2), (k2, c1), (k1, c1), (k1, c2)]]
+        for app, param in (("wif", 0), ("hex", 32), ("mnemonic", 12), ("xprv", 0), ("pwd", 21)):
+            i = rng.choice([0, 1, 7])
+            for m in sib:
+                yield "bip85 %s %s %d %d -" % (m, app, param, i), "sibling-masters"
     yield "w_bip85 xkey:%s mnemonic 12 0" % sx(REF_XPRV), "reference-vector"
     yield "w_bip85 xkey:%s wif 0 0" % sx(REF_XPRV), "reference-vector"
     yield "w_bip85 xkey:%s xprv 0 0" % sx(REF_XPRV), "reference-vector"
